@@ -83,6 +83,42 @@ def unit_sharing(spec_name, k, opts):
     return res
 
 
+def unit_eval_twice(shape, k, opts):
+    """ParsedFormula::eval executed twice in one environment: the second answer == the documented meaning"""
+    import evalcore, fsem
+    I, w, env, mem = evalcore.setup_eval(opts, k)
+    sk = evalcore.Sketch(shape, k)
+    tv = evalcore.to_value(I, w, sk.tree)
+    pf, mem = evalcore.parsed_formula(I, w, env, mem, tv)
+    ref = fsem.Sem(k, (1 << k) + 1)
+    exp = ref.sem(sk.tree)
+    outs1 = I.run('ParsedFormula', None, 'eval', [mk_sref(pf)], mem)
+    rets1, pc1, _ = outcome_split(outs1)
+    assumptions = list(w.constraints) + sk.cons + [gnot(ref.nonconv)]
+    res = dict(queries=[], method=None)
+    bad = pcs = False
+    for r1 in rets1:
+        outs2 = I.run('ParsedFormula', None, 'eval', [mk_sref(pf)], r1.mem)
+        rets2, pc2, _ = outcome_split(outs2)
+        pcs = gor(pcs, gand(r1.guard, pc2))
+        for r2 in rets2:
+            bad = gor(bad, gand(r1.guard, r2.guard, gnot(evalcore.result_tt_eq(w, r2.value, exp))))
+    cex = None
+    for name, neg in (('second evaluation does not panic / diverge', pcs), ('second evaluation == documented meaning', bad)):
+        q = decide(name, assumptions, neg, timeout_s=opts.get('timeout', 250))
+        q['expect'] = 'unsat'
+        m = q.pop('model', None)
+        res['queries'].append(q)
+        if q['result'] == 'sat' and cex is None:
+            cex = dict(obligation=name, case=evalcore.formula_case(sk, w, k, m))
+        elif q['result'] not in ('sat', 'unsat'):
+            res['status'] = 'inconclusive'
+    res.update(interp_summary(I))
+    res['cex'] = cex
+    res['sample'] = dict(unit='eval twice %r k=%d' % (shape, k), obligation='second evaluation in the same environment == documented meaning')
+    return res
+
+
 def main():
     quick = TIER != 'thorough'
     rep = Report(PID)
@@ -115,6 +151,11 @@ def main():
     for a, b in pairs:
         kk = 1 if (a.startswith(('aln', 'amn', 'exn', 'count')) or b.startswith(('aln', 'amn', 'exn', 'count'))) else 2
         jobs.append(('history %s ; %s k=%d' % (a, b, kk), unit_pair, (a, b, kk, {})))
+    jobs.append(('NamedSymbol: Hash consistent with Eq (table lookups find equal keys)', bddcore.unit_symbol_hash, ({},)))
+    # a formula evaluated twice in its environment (fixed points consult the environment between iterations)
+    import evalcore
+    for sh in [('fp', ('bin', 'L', 'L')), ('fp', ('q', 1, ('bin', 'L', 'L'))), ('fp', ('bin', 'L', ('q', 1, 'L'))), ('bin', ('fp', 'L'), ('fp', 'L'))]:
+        jobs.append(('eval twice %r k=2' % (sh,), unit_eval_twice, (sh, 2, {})))
     results = run_units(jobs)
     rep.absorb(results)
     for name, r in sorted(results.items()):
@@ -135,6 +176,14 @@ def main():
             continue
         if case.get('kind') == 'pair':
             replay_pair(rep, PID, name, cex)
+            continue
+        if case.get('kind') == 'formula':
+            import evalcore
+            evalcore.replay_formula(rep, PID, name, cex, keyprefix='history-eval')
+            continue
+        if case.get('kind') == 'symhash':
+            rr = run_property_replay_symhash(rep, PID, name, cex)
+            continue
     rep.bounds = {'variables_k': 2, 'history_length': 2, 'pairs': len(pairs), 'sharing_units': len(share_ops)}
     rep.assumptions = props_assume()
     rep.uncovered = ['histories longer than two operations (longer ones are covered only through the free hit/miss table model of C02..C07)',
@@ -142,6 +191,22 @@ def main():
                      'formula evaluations sharing one environment (covered for the operations they call, not as a sequence)']
     rep.extra['invariant_established_by_new'] = 'checked on every run by executing BDDEnv::new() symbolically (leaves present, key == *value)'
     sys.exit(rep.finish())
+
+
+def run_property_replay_symhash(rep, pid, name, cex):
+    case = cex['case']
+    n1 = ''.join(ch for ch in case['names'][0] if ch.isalnum()) or 'a'
+    n2 = ''.join(ch for ch in case['names'][1] if ch.isalnum()) or 'b'
+    if n1 == n2:
+        n2 += 'x'
+    line = 'symhash %d %s %s' % (case['id'] % (1 << 62), n1, n2)
+    ans = driver_run([line], 'dev')[0]
+    path = save_replay(pid, dict(case, driver_line=line, driver_answer=ans, obligation=cex['obligation']))
+    if ans.startswith('ok') and 'eq=1' in ans and 'hasheq=0' in ans:
+        rep.violations.append(('symbol:hash-vs-eq', 'symbols with id %d named %s / %s compare equal but hash differently: table lookups miss, equal nodes are stored twice (sharing broken)' % (case['id'] % (1 << 62), n1, n2), path))
+        print('CONFIRMED ' + line + ': ' + ans)
+    else:
+        rep.inconclusive.append('%s: hash/eq counterexample did not reproduce (%s)' % (name, ans[:80]))
 
 
 def props_assume():
